@@ -1,0 +1,58 @@
+//go:build verif
+
+package quasigo
+
+// Verification hooks (build tag `verif`): thin, add-only wrappers that let an
+// external harness look at the compiled form of a function. Not part of the API.
+
+// VerifFunc is the compiled form of a function, copied out of a *Func.
+type VerifFunc struct {
+	Code            []byte
+	Constants       []interface{}
+	IntConstants    []int
+	NumObjectParams int
+	NumIntParams    int
+	Name            string
+}
+
+// VerifDump copies the code, the constant pools and the frame sizes out of fn.
+func VerifDump(fn *Func) VerifFunc {
+	return VerifFunc{
+		Code:            append([]byte(nil), fn.code...),
+		Constants:       append([]interface{}(nil), fn.constants...),
+		IntConstants:    append([]int(nil), fn.intConstants...),
+		NumObjectParams: fn.numObjectParams,
+		NumIntParams:    fn.numIntParams,
+		Name:            fn.name,
+	}
+}
+
+// VerifOpcode is one row of the opcode table.
+type VerifOpcode struct {
+	Name   string
+	Number int
+	Width  int
+}
+
+// VerifOpcodeTable dumps the opcode numbers, names and widths the VM uses
+// (every opcode whose String() is not the numeric fallback).
+func VerifOpcodeTable() []VerifOpcode {
+	var out []VerifOpcode
+	for i := 0; i < 256; i++ {
+		op := opcode(i)
+		name := op.String()
+		if len(name) >= 7 && name[:7] == "opcode(" {
+			continue
+		}
+		out = append(out, VerifOpcode{Name: name, Number: i, Width: opcodeInfoTable[op].width})
+	}
+	return out
+}
+
+// VerifMaxLocals is the size of a frame's local arrays.
+const VerifMaxLocals = maxFuncLocals
+
+// VerifStackDepths reports the current depths of the two value stacks of an EvalEnv.
+func VerifStackDepths(env *EvalEnv) (objects, ints int) {
+	return len(env.Stack.objects), len(env.Stack.ints)
+}
